@@ -174,9 +174,9 @@ fn c08_p1_q() {
 }
 
 #[kani::proof]
-#[kani::unwind(8)]
+#[kani::unwind(14)]
 fn c08_p1_t() {
-    p1::<6>()
+    p1::<12>()
 }
 
 // ---------------------------------------------------------------------------
@@ -215,9 +215,9 @@ fn c08_p2_q() {
 }
 
 #[kani::proof]
-#[kani::unwind(8)]
+#[kani::unwind(14)]
 fn c08_p2_t() {
-    p2::<6>()
+    p2::<12>()
 }
 
 // ---------------------------------------------------------------------------
@@ -398,6 +398,7 @@ fn one_change(text: &'static str) -> [bool; 4] {
 pub const TEXT_A: &str = "a\u{1F600}\nb"; // ASCII, astral, LF
 pub const TEXT_B: &str = "\u{e9}\r\nx\n"; // 2-byte char, CRLF, trailing newline
 pub const TEXT_C: &str = ""; // empty document
+pub const TEXT_D: &str = "a\n"; // smallest non-empty document: cheap enough that a counterexample can always be replayed
 
 #[kani::proof]
 #[kani::unwind(14)]
@@ -412,6 +413,14 @@ fn c08_p3_one_change_a() {
 fn c08_p3_one_change_b() {
     let f = one_change(TEXT_B);
     kani::cover!(f[0] && f[2] && !f[1], "range replaced by a string of the same length");
+}
+
+#[kani::proof]
+#[kani::unwind(9)]
+fn c08_p3_one_change_d() {
+    let f = one_change(TEXT_D);
+    kani::cover!(!f[0] && f[1], "full-text replacement that changes the length");
+    kani::cover!(f[0] && f[2], "ranged replacement of a non-empty range");
 }
 
 #[kani::proof]
